@@ -1,10 +1,100 @@
-/- line-protocol handlers for the C17 Outline models (stub; see Props/C17Outline.lean) -/
-import FontVerif.Model.Base
+/- line-protocol handlers for the C17 outline part (Props/C17Outline.lean)
+
+  c17.decode <hex>          what the read-fonts reader model (Model/Glyf.lean, through `SubsetOutline.decodeGlyph`'s
+                            dispatch) decodes a glyph record to:
+      simple     S <nc> <xMin> <yMin> <xMax> <yMax> E <endPts…> P <x y on>… F <x y on>… | F none
+      composite  C <xMin> <yMin> <xMax> <yMax> K <flags gid (o x y | p base comp) xx yx xy yy>…
+      unreadable err
+  c17.decsub <flags> M <old new>… D <hex>
+                            `subset_glyph` (model) followed by the decode of its output, and the glyph-id renaming of
+                            the original's decode (the two sides of `subset_glyph_decodes_equal`):
+      <decode of the subset | empty | readerr | trap> # <renamed decode of the original | none>
+-/
+import FontVerif.Lemmas.SubsetOutline7
 namespace FontVerif.Drv.C17Outline
-open FontVerif
+open FontVerif FontVerif.Subset FontVerif.SubsetOutline
+
+def fmtPoint (p : Glyf.Point) : String := s!"{p.x} {p.y} {if p.on then 1 else 0}"
+
+def fmtAnchor : Glyf.Anchor → String
+  | .offset x y => s!"o {x} {y}"
+  | .point b c => s!"p {b} {c}"
+
+def fmtComp (c : Glyf.RComponent) : String :=
+  s!"{c.flags} {c.glyph} {fmtAnchor c.anchor} {c.transform.xx} {c.transform.yx} {c.transform.xy} {c.transform.yy}"
+
+def listOr (xs : List String) : String := if xs.isEmpty then "-" else " ".intercalate xs
+
+/-- decode with the fast reader's answer attached (simple glyphs) -/
+def fmtSimple (v : Glyf.SimpleView) : String :=
+  let fast := match v.readPointsFast with
+    | none => "none"
+    | some l => listOr (l.map (fun (t : Int × Int × Nat) => s!"{t.1} {t.2.1} {t.2.2}"))
+  s!"S {v.nContours} {v.xMin} {v.yMin} {v.xMax} {v.yMax} E {joinNats v.endPts} P {listOr (v.points.map fmtPoint)} F {fast}"
+
+def fmtComposite (xMin yMin xMax yMax : Int) (cs : List Glyf.RComponent) : String :=
+  s!"C {xMin} {yMin} {xMax} {yMax} K {listOr (cs.map fmtComp)}"
+
+def decodeStr (d : Bytes) : String :=
+  if u16At d 0 < 32768 then
+    match Glyf.readSimple d with
+    | none => "err"
+    | some v => fmtSimple v
+  else
+    match Glyf.readComposite d with
+    | none => "err"
+    | some v => fmtComposite v.xMin v.yMin v.xMax v.yMax v.components
+
+/-- the renamed decode of the original, printed like `decodeStr` (the simple case is the original's own decode) -/
+def renamedStr (flags : Nat) (gmap : Nat → Option Nat) (d : Bytes) : String :=
+  if u16At d 0 < 32768 then
+    match Glyf.readSimple d with
+    | none => "none"
+    | some v => fmtSimple v
+  else
+    match Glyf.readComposite d with
+    | none => "none"
+    | some v =>
+      match mapComps flags gmap true v.components with
+      | none => "none"
+      | some cs => fmtComposite v.xMin v.yMin v.xMax v.yMax cs
+
+def sections (markers : List String) (args : List String) : Option (List (List String)) :=
+  match markers with
+  | [] => some [args]
+  | m :: ms =>
+    let pre := args.takeWhile (· ≠ m)
+    match args.dropWhile (· ≠ m) with
+    | [] => none
+    | _ :: rest => (sections ms rest).map (pre :: ·)
+
+def pairList (ts : List String) : Option (List (Nat × Nat)) := do
+  let ns ← if ts = ["-"] then some [] else parseNats? ts
+  let rec go : List Nat → Option (List (Nat × Nat))
+    | [] => some []
+    | [_] => none
+    | a :: b :: rest => (go rest).map ((a, b) :: ·)
+  go ns
 
 def handle (cmd : String) (args : List String) : Option String :=
   match cmd with
+  | "c17.decode" => do
+    let [h] := args | none
+    some (decodeStr (← parseHex? h))
+  | "c17.decsub" => do
+    let [hd, m, dd] ← sections ["M", "D"] args | none
+    let [fl] := hd | none
+    let flags ← parseNat? fl
+    let map ← pairList m
+    let [h] := dd | none
+    let d ← parseHex? h
+    let gmap := fun old => lookupNat old map
+    let lhs := match subsetGlyphBytes flags gmap d with
+      | .readErr => "readerr"
+      | .trap => "trap"
+      | .bytes [] => "empty"
+      | .bytes b => decodeStr b
+    some s!"{lhs} # {renamedStr flags gmap d}"
   | _ => none
 
 end FontVerif.Drv.C17Outline
